@@ -21,6 +21,10 @@ What runs
     gender/number, all features of a declension row); when the realizer answers that very cell without a warning
     the form is one "the entry can take according to its table" and must be a key of the map listing an expression
     with that lemma and part of speech.
+  - other language current: every realized pair is realized a second time, and every derivable form rebuilt as
+    `pos(lemma, lang)`, while the OTHER language is loaded (both maps built before): same form required.
+The decidable hypotheses of the theorems are evaluated by the driver (op `wf`) on EVERY entry in every tier; an entry
+failing one always joins the selection.
 Signatures: kind | language | pos | table | verb class (pat,aux) | option tuple — the lemma is dropped."""
 import ast
 import json
@@ -113,9 +117,9 @@ class Impl:
     def load(self, lang):
         (self.p.loadEn if lang == "en" else self.p.loadFr)()
 
-    def realize(self, lang, exp):
-        """exp.realize() -> 'text', 'text\\tWARNINGS' or '!Exception'"""
-        self.load(lang)
+    def realize(self, lang, exp, current=None):
+        """exp.realize() with `current` (default: the map's language) loaded -> 'text', 'text\\tWARNINGS', '!Exception'"""
+        self.load(current or lang)
         self.nwarn = 0
         self.depth = 0
         try:
@@ -126,19 +130,31 @@ class Impl:
             return "!NotAString"
         return r if self.nwarn == 0 else "%s\t%d" % (r, self.nwarn)
 
-    def build(self, lang, pos, lemma, opts):
-        self.load(lang)
+    def build(self, lang, pos, lemma, opts, current=None):
+        """pos(lemma).opts… ; with `current` given: pos(lemma, lang) built while the OTHER language is loaded"""
+        self.load(current or lang)
         self.nwarn = 0
         self.depth = 0
-        t = getattr(self.p, pos)(lemma)
+        t = getattr(self.p, pos)(lemma) if current is None else getattr(self.p, pos)(lemma, lang)
         for k, v in opts:
             t = getattr(t, k)(v)
         return t
 
-    def coord(self, lang, pos, lemma, opts):
+    def twin(self, lang, key):
+        """what buildLemmataMap(lang) stores for (pos, lemma, options): jsrExpInit + the option calls, `lang` loaded"""
+        from pyrealb import lemmatize
+        self.load(lang)
+        self.nwarn = 0
+        self.depth = 0
+        t = lemmatize.jsrExpInit(key[0], key[1])
+        for k, v in key[2]:
+            t = getattr(t, k)(v)
+        return t
+
+    def coord(self, lang, pos, lemma, opts, current=None):
         """(realized text, the terminal's own token) when no warning and no exception, else None"""
         try:
-            t = self.build(lang, pos, lemma, opts)
+            t = self.build(lang, pos, lemma, opts, current)
             nw = self.nwarn
             self.nwarn = 0
             r = t.realize()
@@ -355,9 +371,10 @@ def work(args):
     answers = core.run_driver(lines, exe)
     res = {"lang": lang, "t_model": time.time() - t0, "n_pairs": 0, "n_cells": 0, "n_derivable": 0, "model": [],
            "diffs": [], "ndiffs": 0, "fails": {}, "driver_errors": [], "wf_bad": [], "nontrivial": set(), "dist": {},
-           "samples": [], "n_refl": 0, "n_info": 0}
+           "samples": [], "n_refl": 0, "n_info": 0, "n_cross": 0}
     m = D.maps[lang]
     canon = D.canon[lang]
+    other = "en" if lang == "fr" else "fr"
 
     def fail(sig, inp, detail):
         f = res["fails"].get(sig)
@@ -410,8 +427,18 @@ def work(args):
             if not sound(D, lang, form, key, text):
                 fail(D.sig("unsound", lang, lemma, key[0], key[2]), inp,
                      "listed under %r but realizes as %r" % (form, got))
-            elif text != form:
-                res["n_refl"] += 1
+            else:
+                if text != form:
+                    res["n_refl"] += 1
+                # a fresh twin of the listed expression (lemmatize.jsrExpInit + the same option calls, built with the
+                # map's language loaded — the listed object itself is not realized twice: a second realize() of one
+                # object is another property) realized while the OTHER language is current, both maps having been
+                # built before, as in a bilingual application: the form does not depend on the current language
+                gotx = impl.realize(lang, impl.twin(lang, key), current=other)
+                res["n_cross"] += 1
+                if not sound(D, lang, form, key, gotx.split("\t")[0]):
+                    fail(D.sig("unsound-other-language-current", lang, lemma, key[0], key[2]), dict(inp, current=other),
+                         "listed under %r; realizes as %r with %s loaded (as %r with %s loaded)" % (form, gotx, other, got, lang))
             mr = mreal.get((form, key[0], json.dumps(key[2], ensure_ascii=False)))
             if mr is not None and mr != got:
                 diff(inp, {"real": mr}, {"real": got})
@@ -422,6 +449,15 @@ def work(args):
         res["n_cells"] += ncells
         res["n_derivable"] += len(der)
         for form, pos, opts in der:
+            if hasattr(impl.p, pos):
+                rx = impl.coord(lang, pos, lemma, opts, current=other)
+                res["n_cross"] += 1
+                if rx is None or (rx[1] if pos == "V" else rx[0]) != form:
+                    fail(D.sig("form-other-language-current", lang, lemma, pos, opts),
+                         {"lang": lang, "lemma": lemma, "pos": pos, "coordinates": opts, "form": form, "current": other,
+                          "entry": line["entry"]},
+                         "%s(%r,%r) with %s gives %r with %s loaded, %r with %s loaded" % (
+                             pos, lemma, lang, opts_str(opts), rx, other, form, lang))
             lst = canon.get(form)
             if lst is None or not any(k[0] == pos and k[1] == lemma for k in lst):
                 fail(D.sig("incomplete", lang, lemma, pos, opts),
@@ -440,6 +476,33 @@ def work(args):
 
 # ------------------------------------------------------------------------------------------------ selection
 
+def gender_risk(D, lang, info):
+    """a noun/adjective entry of fixed gender whose declension table has lines of another gender: the small class on
+    which genExp's fall-through (bare expression for a gender-mismatched line) and the dedup of endings can bite"""
+    for pos in ("N", "A"):
+        e = info.get(pos)
+        if isinstance(e, dict) and e.get("g") in ("m", "f") and isinstance(e.get("tab"), str):
+            tb = D.rules[lang]["declension"].get(e["tab"])
+            if tb and any(d.get("g") not in (None, e["g"]) for d in tb["declension"]):
+                return True
+    return False
+
+
+def wf_work(args):
+    """the decidable hypotheses of the C18 theorems on a chunk of entries (driver op `wf`, model side only)"""
+    lang, lemmas, exe = args
+    D = _W["D"]
+    lines = [dict(entry_line(D, lang, l), op="wf") for l in lemmas]
+    out = []
+    for l, a in zip(lemmas, core.run_driver(lines, exe)):
+        if "driver_error" in a:
+            raise core.Infra("driver error on %s: %s" % (l, a["driver_error"]))
+        bad = [x for x in a["wf"] if not x.startswith("info:")]
+        if bad:
+            out.append((l, bad))
+    return out
+
+
 def select(ctx, D):
     """{lang: [lemma,...]} in lexicon order + description"""
     sel = {"en": list(D.lex["en"].keys())}
@@ -452,7 +515,7 @@ def select(ctx, D):
     for l in fr:
         info = D.lex["fr"][l]
         poss = [p for p, v in info.items() if p not in SKIP and isinstance(v, dict)]
-        if any(p in ("D", "Pro") for p in poss):
+        if any(p in ("D", "Pro") for p in poss) or gender_risk(D, "fr", info):
             always.append(l)
             continue
         key = tuple((p, repr(info[p].get("tab"))) for p in poss[:1])
@@ -466,7 +529,8 @@ def select(ctx, D):
         k = max(1, (len(ls) * 15 + 99) // 100)
         chosen.update(ctx.rng.sample(ls, k))
     sel["fr"] = [l for l in fr if l in chosen]
-    return sel, ("every English entry; French: every D/Pro entry + a seeded 15 %% of each (first pos, table[, verb "
+    return sel, ("every English entry; French: every D/Pro entry, every noun/adjective of fixed gender whose table has lines "
+                 "of another gender, every entry failing a hypothesis of the theorems (op wf on ALL entries) + a seeded 15 %% of each (first pos, table[, verb "
                  "class]) stratum: %d of %d entries, %d strata" % (len(sel["fr"]), len(fr), len(strata)))
 
 
@@ -529,6 +593,30 @@ def run(ctx, deep=False):
     sel, scope = select(ctx, D)
     if deep:
         ctx.tier = saved
+    # the hypotheses of the theorems are evaluated on EVERY entry in every tier (model side, cheap); an unselected
+    # entry that fails one joins the selection, so that the oracle decides on the implementation what the theorem
+    # no longer covers
+    unsel = {}
+    for lang in sel:
+        chosen0 = set(sel[lang])
+        unsel[lang] = [l for l in D.lex[lang] if l not in chosen0]
+    wjobs = []
+    for lang in unsel:
+        ls = unsel[lang]
+        n = max(1, min(64, len(ls) // 500))
+        wjobs += [(lang, ls[i::n], ctx.driver) for i in range(n) if ls[i::n]]
+    added = {}
+    if wjobs:
+        with multiprocessing.get_context("fork").Pool(16) as pool:
+            for (lang, _, _), out in zip(wjobs, pool.map(wf_work, wjobs, chunksize=1)):
+                for l, bad in out:
+                    added.setdefault(lang, {})[l] = bad
+        for lang, d in added.items():
+            extra = set(d)
+            chosen = set(sel[lang]) | extra
+            sel[lang] = [l for l in D.lex[lang] if l in chosen]
+    ctx.notes["hypothesis_sweep_of_unselected_entries"] = {
+        "entries": {k: len(v) for k, v in unsel.items()}, "joined_the_selection": {k: dict(list(v.items())[:20]) for k, v in added.items()}}
     # table-level witnesses of the `_tbl` theorems (executable twins)
     w = core.run_driver([{"op": "tbl-witness"}], ctx.driver)[0]
     ctx.notes["tbl_witnesses"] = w.get("bad", [])[:40]
@@ -547,7 +635,7 @@ def run(ctx, deep=False):
     wall = time.time() - t0
     fails = {}
     dist = {}
-    tot = {"pairs": 0, "cells": 0, "derivable": 0, "ndiffs": 0, "nontrivial": 0, "refl": 0, "info": 0}
+    tot = {"pairs": 0, "cells": 0, "derivable": 0, "ndiffs": 0, "nontrivial": 0, "refl": 0, "info": 0, "cross": 0}
     wf_bad = []
     model_by_lemma = {"en": {}, "fr": {}}
     for r in results:
@@ -559,6 +647,7 @@ def run(ctx, deep=False):
         tot["ndiffs"] += r["ndiffs"]
         tot["nontrivial"] += r["nontrivial"]
         tot["refl"] += r["n_refl"]
+        tot["cross"] += r["n_cross"]
         tot["info"] += r["n_info"]
         wf_bad += r["wf_bad"]
         for lemma, pairs in r["model"]:
@@ -584,7 +673,7 @@ def run(ctx, deep=False):
         nd, nforms, npairs = assemble_and_compare(ctx, D, lang, sel[lang], model_by_lemma[lang],
                                                   len(sel[lang]) == len(D.lex[lang]))
         mapdiffs[lang] = {"diffs": nd, "forms_compared": nforms, "pairs_compared": npairs}
-    ctx.cov["evaluations"] += tot["pairs"] + tot["cells"]
+    ctx.cov["evaluations"] += tot["pairs"] + tot["cells"] + tot["cross"]
     ctx.cov["traces_validated_against_impl"] += tot["pairs"] + tot["cells"]
     base = len(ctx.distinct)
     ctx.distinct.update(range(base, base + tot["nontrivial"]))
@@ -595,6 +684,7 @@ def run(ctx, deep=False):
     ctx.notes["entries"] = {l: len(sel[l]) for l in sel}
     ctx.notes["pairs_realized"] = tot["pairs"]
     ctx.notes["reflexive_relaxation_used"] = tot["refl"]
+    ctx.notes["realizations_with_the_other_language_current"] = tot["cross"]
     ctx.notes["table_cells_asked"] = tot["cells"]
     ctx.notes["derivable_forms"] = tot["derivable"]
     ctx.notes["map_comparison"] = mapdiffs
@@ -636,13 +726,21 @@ def replay(path):
     form = inp["form"]
     listed = [exp_key(e) for e in m.get(form, [])]
     print("map[%r] = %s" % (form, json.dumps(listed, ensure_ascii=False)))
+    cur = inp.get("current")          # the language loaded at realization (None: the map's own)
     if "coordinates" in inp:
-        r = impl.coord(lang, pos, lemma, inp["coordinates"])
-        print("%s(%r) with %s realizes as %r" % (pos, lemma, opts_str(inp["coordinates"]), r))
+        r = impl.coord(lang, pos, lemma, inp["coordinates"], current=cur)
+        print("%s(%r%s) with %s realizes as %r%s" % (pos, lemma, "" if cur is None else ", %r" % lang,
+                                                     opts_str(inp["coordinates"]), r,
+                                                     "" if cur is None else " with %s loaded" % cur))
+        if cur is not None:
+            ok = r is not None and (r[1] if pos == "V" else r[0]) == form
+            print("same form" if ok else "DIFFERENT from %r, the form with %s loaded" % (form, lang))
+            return 0 if ok else 1
         ok = r is not None and any(k[0] == pos and k[1] == lemma for k in listed)
         print("complete" if ok else "INCOMPLETE: the form is not listed for this entry")
         return 0 if ok else 1
-    t = impl.build(lang, pos, lemma, inp["opts"])
-    got = impl.realize(lang, t)
-    print("%s(%r) with %s realizes as %r, listed under %r" % (pos, lemma, opts_str(inp["opts"]), got, form))
+    t = impl.twin(lang, (pos, lemma, inp["opts"]))
+    got = impl.realize(lang, t, current=cur)
+    print("%s(%r) with %s realizes as %r%s, listed under %r" % (pos, lemma, opts_str(inp["opts"]), got,
+                                                                  "" if cur is None else " with %s loaded" % cur, form))
     return 0 if got == form else 1
